@@ -52,6 +52,21 @@ func (s *Sim) clientUpdate(addHashes []u.Hash, blockTargets []uint64, ud u.Updat
 		return
 	}
 	c.hashes = out
+	// expected set: previous leaves minus the block's deletions plus the remembered additions
+	dead := map[u.Hash]bool{}
+	for _, h := range s.lastDels {
+		dead[h] = true
+	}
+	var exp []u.Hash
+	for _, h := range c.expect {
+		if !dead[h] {
+			exp = append(exp, h)
+		}
+	}
+	for _, i := range rem {
+		exp = append(exp, addHashes[i])
+	}
+	c.expect = exp
 	emit("cupdate %s %s %s %s v=%s", remStr, hxs(c.hashes), us(c.proof.Targets), hxs(c.proof.Proof), s.clientVerify())
 }
 
@@ -92,6 +107,18 @@ func (s *Sim) clientUndo(rec blockRec) {
 		return
 	}
 	c.hashes = out
+	// what the client should hold now: its leaves minus the undone block's additions
+	added := map[u.Hash]bool{}
+	for _, a := range rec.adds {
+		added[a.Hash] = true
+	}
+	var exp []u.Hash
+	for _, h := range c.expect {
+		if !added[h] {
+			exp = append(exp, h)
+		}
+	}
+	c.expect = exp
 	// verify against the previous stump
 	v := "ok"
 	if len(c.hashes) > 0 {
@@ -107,6 +134,44 @@ func (s *Sim) clientUndo(rec blockRec) {
 		}
 	}
 	emit("cundo %s %s %s v=%s", hxs(c.hashes), us(c.proof.Targets), hxs(c.proof.Proof), v)
+	s.clientResync()
+}
+
+// clientResync replaces the client's proof by the canonical one for the expected leaves when
+// it deviates (reported on the cundo line already), so that a defect of Undo does not taint
+// the judgement of the following updates.
+func (s *Sim) clientResync() {
+	c := s.client
+	var canon u.Proof
+	if len(c.expect) > 0 {
+		var err error
+		canon, err = s.prover.Prove(copyHashes(c.expect))
+		if err != nil {
+			die("prover cannot prove the expected cached set: %v", err)
+		}
+	}
+	same := len(c.hashes) == len(c.expect) && len(c.proof.Proof) == len(canon.Proof)
+	if same {
+		at := map[u.Hash]uint64{}
+		for i, h := range c.expect {
+			at[h] = canon.Targets[i]
+		}
+		for i, h := range c.hashes {
+			if p, ok := at[h]; !ok || i >= len(c.proof.Targets) || p != c.proof.Targets[i] {
+				same = false
+			}
+		}
+		for i := range canon.Proof {
+			if canon.Proof[i] != c.proof.Proof[i] {
+				same = false
+			}
+		}
+	}
+	if !same {
+		c.hashes = copyHashes(c.expect)
+		c.proof = canon
+		emit("cresync")
+	}
 }
 
 // famCached: random histories with a light client that remembers random subsets of the
